@@ -22,6 +22,13 @@ Theorem c07_concat_borrowed : forall t : cstr,
 Proof. exact const_str_value_borrowed. Qed.
 Print Assumptions c07_concat_borrowed.
 
+(* consequently every name the macro-generated code writes is a borrowed constant exactly when it is at most 100
+   bytes long (names of hand-written flattened entries are short static strings: [raw_short]) *)
+Theorem c07_name_borrowed_iff_short : forall (pascal snake kebab : bytes -> bytes) (ftag : bool) (d : edef),
+  raw_short d = true -> Forall cow_kind_ok (root_write pascal snake kebab ftag d).
+Proof. exact cow_kind. Qed.
+Print Assumptions c07_name_borrowed_iff_short.
+
 (* ---- naming: for EVERY Inflector (three arbitrary functions), every type tree of any depth and every value in
    it, what the repaired mechanism (four pre-inflected strings selected by the type-level style, prefix chain as a
    concatenation tree, const_str_value) writes is what the documentation's naming function says ---- *)
